@@ -269,6 +269,11 @@ def main():
                     orc.fail("enum-values", prefix + e.name, "no such enum class in the generated module")
                     continue
                 ed = ec._meta.pb
+                if ed is None:
+                    orc.fail("class-unusable", prefix + e.name, "the enum class has no descriptor (the module's file descriptor was never built)")
+                    rec["ok"] = False
+                    rec["error"] = f"{e.name}: no descriptor"
+                    continue
                 rec["enums"].append(dump_enum_desc(ed))
                 orc.compare_enum(prefix + e.name, ein, [(m.name, int(m.value)) for m in ec], ed)
             pairs = []
